@@ -91,6 +91,13 @@ def execute(prop, tier, seed, sc, topo, disconnect=False):
     if disconnect:
         d = [dict(x, disconnect=rnd.choice([0, len(x["sched"]) // 2])) for x in scheds if any(x["expires"].values())]
         scheds = rnd.sample(d, min(len(d), 150 if quick else 1500))
+    else:
+        # the connection is removed while a deciding verdict is parked behind its timer stop (it holds the decision lock):
+        # teardown and verdict both complete, nothing is written afterwards (judged as a teardown schedule)
+        held = [x for x in scheds if x.get("splitverdict")]
+        for x in rnd.sample(held, min(len(held), 40 if quick else 400)):
+            vpos = [i for i, n in enumerate(x["sched"]) if n.startswith("v:")]
+            scheds.append(dict(x, disconnect=min(len(x["sched"]), rnd.choice(vpos) + 1)))
     # second epoch (spec: action Reconnect): the connection is removed at a point where no verdict call is in flight, the
     # peer connects, binds and writes again with the message counters of the first epoch; the approvals counted before
     # the teardown must not count for the new write
